@@ -46,6 +46,14 @@ def make_test(cfg):
         args["estim"] = getattr(NonnegMean, cfg["estim"])
     if cfg.get("bet"):
         args["bet"] = getattr(NonnegMean, cfg["bet"])
+    u0 = cfg.get("u0")
+    if u0:
+        # the audit code builds its tests before margins are known and installs the bound afterwards (`test.u = ...`):
+        # what counts is the bound in force when the test is used
+        args["u"] = 1 if u0 == "default" else (u * 1.25 if u0 == "higher" else u * 0.8)
+        test = NonnegMean(**args, **kw)
+        test.u = u
+        return test
     return NonnegMean(**args, **kw)
 
 
@@ -89,7 +97,8 @@ def config(draw, family, dyadic=False, max_N=60, min_N=1, ut=None, dyadic_g=Fals
     u, t = ut if ut is not None else draw(u_t(dyadic=dyadic, comparison=(base == "alpha-optcomp")))
     N = None if inf else draw(st.integers(min_N, max_N))
     kw = {}
-    cfg = {"family": fam, "estim": None, "bet": None, "N": N, "u": u, "t": t, "random_order": True}
+    cfg = {"family": fam, "estim": None, "bet": None, "N": N, "u": u, "t": t, "random_order": True,
+           "u0": draw(st.sampled_from([None, None, None, "higher", "lower", "default"]))}
     eta = t + (u - t) * draw(_frac())
     if not (t < eta < u):
         eta = (t + u) / 2
